@@ -13,6 +13,10 @@ for i in range(1, 21):
     d = json.load(open(p)); c = d['coverage']
     be = ', '.join(f"{k} {v}" for k, v in sorted(c['by_backend'].items(), key=lambda kv: -kv[1]))
     bs = c.get('bounded_standins') or []
-    names = sorted({(b.get('check') or b.get('name') or '?') if isinstance(b, dict) else str(b) for b in bs})
+    def short(b):
+        n = (b.get('check') or b.get('name') or '?') if isinstance(b, dict) else str(b)
+        n = n.split('::')[-2] if n.count('::') >= 2 else n.split('::')[0]
+        return n.replace('(bounded)', '').split('#')[-1]
+    names = sorted({short(b) for b in bs})
     mk = c.get('discharged_modulo_known_findings', 0)
     print(f"| {pid} | {len(c['functions_under_contract'])} | {c['obligations']}" + (f" ({mk} modulo known findings)" if mk else '') + f" | {be} | {d['wall_s']:.0f} s | {', '.join(names)[:160] or '-'} |")
